@@ -17,7 +17,7 @@ impl<'a, 'b: 'a> Decoder<'a, 'b> {
             let client_cookie = vec[0..8].try_into().unwrap();
             let cookie = Cookie::new(client_cookie, None)?;
             Ok(cookie)
-        } else if (MINIMUM_COOKIE_LENGTH..MAXIMUM_COOKIE_LENGTH).contains(&vec_len) {
+        } else if (MINIMUM_COOKIE_LENGTH..=MAXIMUM_COOKIE_LENGTH).contains(&vec_len) {
             let client_cookie = vec[0..8].try_into().unwrap();
             let server_cookie = Some(vec[8..].to_vec());
             let cookie = Cookie::new(client_cookie, server_cookie)?;
